@@ -851,6 +851,8 @@ func genErc20AnyOp(rng *rand.Rand, g *GenesisSpec, nTok int, shareAcrossTokens b
 
 func genC10(rng *rand.Rand, seed uint64, tier string) *Script {
 	g := pcGenesis(rng)
+	// one holder is a vesting account most of whose coins are still locked: a balance is a balance, spendable or not
+	g.Vesting = []GenVesting{{Kind: pick(rng, "delayed", "continuous"), Wallet: 0, StartOff: -1000, EndOff: 86400 * 400, Amount: "1000000000000000000", Extra: "30000000000000000", Denom2: "utwo"}}
 	s := &Script{Prop: "C10", Seed: seed, Gen: g, Extra: map[string]string{}}
 	nTok := 1 + rng.IntN(3)
 	share := rng.IntN(4) == 0
@@ -883,6 +885,12 @@ func genC10(rng *rand.Rand, seed uint64, tier string) *Script {
 					ops = append(ops, Op{K: "erc20", W: rng.IntN(g.Wallets), Mut: "transfer", Ref: rng.IntN(nTok), A: []string{f, pick(rng, "5", "40")}})
 				} else {
 					ops = append(ops, Op{K: "eth", W: rng.IntN(g.Wallets), To: f, Val: "0", Gas: pick(rng, "i", "i+1000"), Price: "b+1", Tip: "1"})
+				}
+			case k == 20 && rng.IntN(2) == 0: // views of, and transfers to, the vesting holder
+				if rng.IntN(2) == 0 {
+					ops = append(ops, Op{K: "erc20", W: rng.IntN(g.Wallets), Mut: "balanceOf", Ref: rng.IntN(nTok), A: []string{"vest0"}})
+				} else {
+					ops = append(ops, Op{K: "erc20", W: rng.IntN(g.Wallets), Mut: "transfer", Ref: rng.IntN(nTok), A: []string{"vest0", pick(rng, "100", "60")}})
 				}
 			case k >= 20: // several precompile calls in one tx, through frames of which some revert
 				wop := genWitness(rng, &g)
